@@ -674,12 +674,16 @@ class ExtendedKalmanFilter:
             covariance.data, np.matmul(H_t.transpose(), S_inv)
         )
 
-        next_covariance = covariance.data - np.matmul(
-            K_t, np.matmul(H_t, covariance.data)
-        )
-        # K H P is symmetric in exact arithmetic. Remove the rounding asymmetry
-        # (relative to the prior, not the posterior) so that it can not
-        # accumulate until the covariance is refused as asymmetric
+        # next_covariance = P - K H P, evaluated in the Joseph form
+        #   (I - K H) P (I - K H)^T + K Q K^T
+        # which does not lose positive semi-definiteness to cancellation when
+        # the prior is much larger than the posterior (e.g. a diffuse prior)
+        I_KH = np.eye(self.state_size) - np.matmul(K_t, H_t)
+        next_covariance = np.matmul(
+            I_KH, np.matmul(covariance.data, I_KH.transpose())
+        ) + np.matmul(K_t, np.matmul(Q_t.data, K_t.transpose()))
+        # Remove the rounding asymmetry so that it can not accumulate until the
+        # covariance is refused as asymmetric
         next_covariance = (next_covariance + next_covariance.transpose()) / 2.0
 
         next_state = state.data + np.matmul(K_t, innovation)
